@@ -8,7 +8,7 @@ import struct
 
 from pvm.ref import frames as F
 
-KINDS = ["tcp", "udp", "icmp", "ipother", "tcp_opts", "frag_first",
+KINDS = ["tcp", "udp", "icmp", "ipother", "tcp_opts", "frag_first", "icmp_quote", "gre_ip",
          "frag_later", "arp_req", "arp_rep", "other", "llc", "snap0",
          "snapx", "snap_ip", "lldp", "ipv6", "qinq", "rarp", "frag_other"]
 
@@ -38,6 +38,10 @@ def gen_frame (rng, kind=None, tagged=None, pad=None, payload_len=None,
   tos = rng.randrange(64) << 2
   desc = dict(kind=k, tagged=bool(tagged))
   def ip (proto, l4, **kw):
+    if "flags" not in kw:
+      # don't-fragment and the reserved bit (neither makes a datagram a
+      # fragment)
+      kw["flags"] = rng.choice([0, 0, 0, 2, 2, 4, 6])
     return F.ipv4(sip, dip, proto, l4, tos=tos, ident=rng.getrandbits(16),
                   ttl=rng.choice([1, 64, 255]), **kw)
   if k == "tcp":
